@@ -14,6 +14,8 @@ CONSTANTS
   ParamKeys = {"sendDefault", "send"}
   MaxParamChanges = 1
   Seeded = TRUE
+  Networks = {"main"}
+  Heights0 = {1}
   Defects = {"gate_send_enabled"}
 INVARIANT MInv_P
 INVARIANT MInv_Model
